@@ -163,11 +163,11 @@ PLAN = {
              "contains a wildcard opener or a hostname / the pattern has at least one wildcard; distinct by limits+string or pattern+values",
         assumptions=["reference grammar = documented grammar", "round-trip values: no '/' in parameter values, no '.' in host values, catch-all values without empty segments"],
         quick=[REPLAY,
-               R("exhaustive", "^(TestGrammarExhaustive|TestRoundTripExhaustive|TestLimitBoundaries|TestAdjacencyFamily)$", env={"C10_LEN": 7, "C10_HOSTLEN": 8, "C10_RT_LEN": 8}, timeout=900),
+               R("exhaustive", "^(TestGrammarExhaustive|TestRoundTripExhaustive|TestLimitBoundaries|TestAdjacencyFamily|TestRoundTripWildcardChains)$", env={"C10_LEN": 7, "C10_HOSTLEN": 8, "C10_RT_LEN": 8}, timeout=900),
                R("random", "^(TestGrammarRandom|TestGrammarBytes|TestRoundTrip)$", checks=60000, timeout=900)],
         thorough=[REPLAY,
                   R("exhaustive", "^TestGrammarExhaustive$", shards=16, env={"C10_LEN": 7, "C10_HOSTLEN": 9}, timeout=3000),
-                  R("exhaustive-rt", "^(TestRoundTripExhaustive|TestLimitBoundaries|TestAdjacencyFamily)$", env={"C10_RT_LEN": 9}, timeout=3000),
+                  R("exhaustive-rt", "^(TestRoundTripExhaustive|TestLimitBoundaries|TestAdjacencyFamily|TestRoundTripWildcardChains)$", env={"C10_RT_LEN": 9}, timeout=3000),
                   R("random", "^(TestGrammarRandom|TestGrammarBytes|TestRoundTrip)$", checks=200000, shards=16, timeout=3000),
                   dict(name="fuzz", fuzz="FuzzNewRoute", fuzztime="120s")],
     ),
